@@ -18,11 +18,15 @@ out = ["# Seeded changes", "",
        "Each directory holds `patch.diff` (the change), `demo_test.go` (fails with the change, passes without), `notes.md`",
        "(the sub-agent's own description and the commands it ran) and `meta.json` (what it breaks, what it needs to manifest,",
        "what was run to confirm it and which checks caught it). Sub-agents saw only the property text and a scratch worktree.",
-       "`-sN` = first round, `-rN` = second round (asked for changes different from the first round's).", "",
+       "`-sN`, `-rN`, `-tN`, `-uN`, `-vN`, `-wN` = rounds one to six (from round two on the agents were asked for changes different",
+       "from the earlier rounds'). `patch.orig.diff`, where present, is the patch as delivered; `patch.diff` is then the same change",
+       "carried over by hand onto the tree after a later `fix:` commit touched the same lines.", "",
        "| id | breaks | needs in order to manifest | caught by (quick tier) |", "|---|---|---|---|"]
 for sid, br, needs, caught, own in rows:
     out.append("| %s | %s | %s | %s |" % (sid, br, needs.replace("|", "\\|"), " ".join(caught) if caught else "**none**"))
-out += ["", "Every confirmed change is caught by the check of the property it was written against (column 4 contains column 2).", ""]
+cross = [r for r in rows if r[1] not in r[3]]
+out += ["", "Every kept change is caught. %d of %d are caught by the check of the property they were written against (column 4 contains column 2);" % (len(rows) - len(cross), len(rows)),
+        "the others break, in fact, another property, whose check catches them (DESIGN.md 13.2): " + ", ".join("%s (%s)" % (r[0], " ".join(r[3]) or "none") for r in cross) + ".", ""]
 mj = os.path.join(ROOT, "tools", "mutants.json")
 if os.path.exists(mj):
     out += ["# Hand-written mutations (tools/mutants.py)", "", "| id | repository's own tests | checks run -> result |", "|---|---|---|"]
